@@ -1,46 +1,41 @@
 (* C13 -- Hard-link structure is preserved and link coordination always terminates.
-   The full termination statement is false of the faithful model: two deadlock witnesses
-   (owner failure = known finding C13-KF1; lost wake-up in the read/register gap = C13-KF2).
-   Proved: without faults and without the gap, no reachable state of up to 4 workers is stuck and every
-   finished run has the right link structure (finite state spaces enumerated by the kernel and lifted to
-   every schedule by a closure argument). *)
+   The model follows the repaired code (`fix: hard-link waiters register for the completion notice before re-checking
+   the inode state`, `fix: a failed first copy of a hard-link group releases the inode instead of leaving it in
+   progress`).  On the pinned commit two deadlocks existed -- a failed first copy left the inode InProgress for ever,
+   and a completion landing between a waiter's read of the map and the creation of its Notified future was missed
+   (recorded as fixed in known_findings.json; the second one made the repository's own
+   test_hard_link_update_both_files_same_content hang now and then).
+
+   Proved for link groups of up to 3 concurrent workers, for EVERY schedule of any length, WITH failing operations at
+   every fallible point and WITH preemption between reading the map and registering for the wake-up (multi-thread
+   runtime): finite reachable sets enumerated by the kernel, lifted to all schedules by a closure lemma. *)
 From Coq Require Import List Bool Arith Lia.
 From SyModel Require Import Hardlink.
 From SyProofs Require Import Hardlink_proofs.
 Import ListNotations.
 
-(* a failed first copy of a link group leaves InProgress behind: the other worker waits forever *)
-Theorem C13_owner_failure_deadlock :
-  exists sched, deadlocked true (run_sched true (init 2) sched) = true /\
-                nth_error (s_pcs (run_sched true (init 2) sched)) 0 = Some PErr.
-Proof. exists [(0, false); (0, false); (1, false); (0, true)]. vm_compute. split; reflexivity. Qed.
-Print Assumptions C13_owner_failure_deadlock.
-
-(* no fault at all: the waiter read InProgress, the owner completed and notified, then the waiter
-   created its Notified future -- nobody will ever wake it *)
-Theorem C13_lost_wakeup_deadlock :
-  exists sched, no_faults sched /\ deadlocked false (run_sched false (init 2) sched) = true.
-Proof.
-  exists [(0, false); (0, false); (1, false); (0, false); (0, false); (0, false); (1, false)].
-  split; [repeat constructor | vm_compute; reflexivity].
-Qed.
-Print Assumptions C13_lost_wakeup_deadlock.
-
-(* every schedule (any length, any interleaving) of up to 4 workers of one link group, no failing operation,
-   no preemption between reading the map and registering for the wake-up: never stuck *)
-Theorem C13_no_deadlock_without_faults_bounded : forall n sched,
-  In n [1; 2; 3; 4] -> no_faults sched -> deadlocked true (run_sched true (init n) sched) = false.
+(* never stuck: in every reachable state either all workers have returned or some worker can move *)
+Theorem C13_no_deadlock_bounded : forall n sched,
+  In n [1; 2; 3] -> deadlocked false (run_sched false (init n) sched) = false.
 Proof. exact no_deadlock_bounded. Qed.
-Print Assumptions C13_no_deadlock_without_faults_bounded.
+Print Assumptions C13_no_deadlock_bounded.
 
-(* ... and whenever all workers have returned, exactly the claimer copied the file and every other worker
-   hard-linked to the claimer's destination: the destination files share one inode *)
+(* whenever all workers have returned: the worker recorded as owner copied the file, every other successful worker
+   hard-linked to the owner's destination (one inode), failed workers created nothing, and if no copy succeeded nobody
+   reports success *)
 Theorem C13_structure_bounded : forall n sched,
-  In n [1; 2; 3; 4] -> no_faults sched -> structure_ok (run_sched true (init n) sched) = true.
+  In n [1; 2; 3] -> structure_ok (run_sched false (init n) sched) = true.
 Proof. exact structure_bounded. Qed.
 Print Assumptions C13_structure_bounded.
 
-(* non-vacuity: a complete run of three workers *)
-Example ex_three : let s := run_sched true (init 3) [(1,false);(1,false);(0,false);(2,false);(1,false);(1,false);(1,false);(0,false);(0,false);(0,false);(2,false);(2,false);(2,false)] in
-  all_terminal s = true /\ s_pcs s = [POkLinked 1; POkOwner; POkLinked 1].
+(* the two schedules that dead-locked the pinned code now run to completion *)
+Example ex_owner_failure_recovers :
+  let s := run_sched false (init 2) [(0,false);(0,false);(1,false);(1,false);(1,false);(1,false);(0,true);(0,false);(0,false);
+                                     (1,false);(1,false);(1,false);(1,false);(1,false);(1,false)] in
+  all_terminal s = true /\ s_pcs s = [PErr; POkOwner].
+Proof. vm_compute. split; reflexivity. Qed.
+
+Example ex_gap_is_harmless :
+  let s := run_sched false (init 2) [(0,false);(0,false);(1,false);(0,false);(0,false);(0,false);(1,false);(1,false);(1,false);(1,false)] in
+  all_terminal s = true /\ s_pcs s = [POkOwner; POkLinked 0].
 Proof. vm_compute. split; reflexivity. Qed.
